@@ -20,7 +20,7 @@ def spec_size(spec):
 
 def gen_case(rng, i, tier):
     kind = rng.choice(SOLVERS)
-    pk = {"rvi": "unichain", "periodic": rng.choice(["periodic", "unichain", "random"])}.get(kind, rng.choice(["random", "unichain"]))
+    pk = {"rvi": "unichain", "periodic": rng.choice(["periodic", "unichain", "random"])}.get(kind, rng.choice(["random", "unichain", "cost", "twosink"]))
     spec = gen.gen_spec(rng, smax=10 if tier == "quick" else 24, kind=pk, denom=4, R=rng.choice([1, 5, 10]))
     S = spec_size(spec)
     op = {"op": "new", "solver": kind, "id": f"p{i}", "maxbs": rng.choice(gen.layouts_for(S)), "n_hint": S}
@@ -45,6 +45,8 @@ def gen_case(rng, i, tier):
         op["shuffle"] = rng.randint(0, 1)
         op["random_seed"] = rng.randint(0, 5)
     ks = [rng.choice([1, 1, 2, 3, 5, 8]) for _ in range(rng.randint(1, 4))]
+    if kind in ("vi", "semi") and rng.random() < 0.5:
+        ks = [1] * rng.randint(4, 9)          # single-sweep calls: the documented measure of every sweep is checked against the report
     return spec, op, ks
 
 
@@ -132,6 +134,7 @@ def run(tier, seed):
     outs = session.run_sessions_parallel(jobs, workers=8)
     for (ops, d), out in zip(jobs, outs):
         tabs, news, total, seq_conv, seq_final = {}, {}, {}, {}, {}
+        prev_values = {}
         for (op, m, i, line) in out:
             o = op["op"]
             if o == "problem":
@@ -143,6 +146,8 @@ def run(tier, seed):
                 news[op["sid"]] = op
                 total[op["sid"]] = 0
                 dm, di = core.parse_resp(m or ""), core.parse_resp(i)
+                if "values" in di:
+                    prev_values[op["sid"]] = core.plist(di["values"])
                 res.count("solver:" + op["solver"])
                 thr_bad = False
                 if "thr" in dm and "thr" in di:
@@ -171,6 +176,31 @@ def run(tier, seed):
                 if int(di["sweeps"]) > op["k"]:
                     res.disagreements.append({"channel": "C08/at-most-k", "case": case, "model": m[:200], "impl": i[:200], "failing_input": True,
                                               "what": f"solve({op['k']}) performed {di['sweeps']} sweeps", "key": f"atmost:{new['solver']}"})
+            # the property's own stopping clause on single-sweep calls: convergence is reported iff the documented measure of that sweep,
+            # computed here from the implementation's own consecutive value vectors, is strictly below the documented threshold
+            if op["k"] == 1 and new["solver"] in ("vi", "semi") and not op.get("_twin") and "values" in di:
+                prev = prev_values.get(op["sid"])
+                cur = core.plist(di["values"])
+                if prev is not None and di.get("sweeps") == "1":
+                    g_, e_ = Fraction(new["gamma"]), Fraction(new["eps"])
+                    thr_ = e_ if g_ == 1 else e_ * (1 - g_) / g_
+                    meas = oracle.span(cur, prev) if new.get("test", "span") == "span" else oracle.maxdiff(cur, prev)
+                    slack = session.envelope(max([abs(x) for x in cur] + [1]), t.E, 1)
+                    res.count("stopping-clause-checked")
+                    if "lastmeasure" in di and di["lastmeasure"] not in ("inf", "nan"):
+                        dp = int(di.get("fmt", ".4f").strip(".f"))
+                        logged = Fraction(di["lastmeasure"])
+                        if abs(logged - meas) > Fraction(1, 10 ** dp) + slack:
+                            res.disagreements.append({"channel": "C08/measure", "case": case, "model": f"documented measure={float(meas)}", "impl": f"reported measure={di['lastmeasure']}",
+                                                      "failing_input": True, "what": f"the convergence measure the solver reports for this sweep ({di['lastmeasure']}) is not the documented {new.get('test', 'span')} of the value change ({float(meas):.6g})",
+                                                      "key": f"measure:{new['solver']}"})
+                    if (di["conv"] == "true" and meas >= thr_ + slack) or (di["conv"] == "false" and meas < thr_ - slack):
+                        res.disagreements.append({"channel": "C08/stopping-clause", "case": case, "model": f"measure={float(meas)} threshold={float(thr_)}", "impl": i[:300],
+                                                  "failing_input": True, "what": f"convergence reported={di['conv']} but the documented {new.get('test', 'span')} measure of that sweep is {float(meas):.6g} vs threshold {float(thr_):.6g}",
+                                                  "key": f"stopping:{new['solver']}"})
+                prev_values[op["sid"]] = cur
+            elif "values" in di:
+                prev_values[op["sid"]] = core.plist(di["values"])
             mism = compare_state(res, op, new, t, m, i, line, d, total[op["sid"]])
             for key, fail in mism:
                 res.disagreements.append({"channel": f"C08/{new['solver']}/{key}", "case": case, "model": m[:500], "impl": i[:500],
